@@ -1,8 +1,8 @@
 #!/verif/.venv/bin/python
 # Replay of a solver counterexample against the unmodified code (no shims).
-# property=C19 kernel=wmap label=k3:unrounded_qubit_gets_weight_of_its_trap
+# property=C19 kernel=wmap label=k3:register_map_gives_each_qubit_its_weight
 import sys
 sys.path[:0] = ['/repo' + "/pulser-core", '/repo' + "/pulser-simulation", "/verif"]
 from symx.replay import replay
 sys.exit(replay(check='checks.c19', kernel='wmap', shape={'n': 2, 'perm': [1, 0]},
-                assignment={'p0_0': 10900016, 'p0_1': 1859949, 'p1_0': 10900009, 'p1_1': 1879964, 'w0': '0/1', 'w1': '1/1024', 'far_0': 1000000000, 'far_1': 1000027139}, label='k3:unrounded_qubit_gets_weight_of_its_trap'))
+                assignment={'p0_0': -14, 'p0_1': -499725103, 'p1_0': -20, 'p1_1': -499745114, 'w0': '0/1', 'w1': '1/1024', 'far_0': 1000000000, 'far_1': 1000007378}, label='k3:register_map_gives_each_qubit_its_weight'))
